@@ -83,7 +83,7 @@ pub fn run_c22(args: &Args) {
         "C22",
         "modelcheck c22",
         args,
-        "2-8 threads share one loaded model (random DAGs and If/Loop models, optimised or not, with or without prepacked weights); every thread issues its own list of run / partial_run requests whose (input ids, output ids) key differs from its neighbours', so consecutive calls from different threads replace the cached execution plan (also in nested subgraph caches); seeded yields/sleeps at the hook sites between plan hand-off and execution. Each result must equal the result of the same request executed alone beforehand (bits: every call uses its own single-thread pool). A group that does not finish within the watchdog is inconclusive, not a violation. non-trivial = a plan was created (cache replaced) while at least one other call was in flight; distinct by (case, schedule seed)",
+        "2-8 threads share one loaded model (random DAGs and If/Loop models, optimised or not, with or without prepacked weights); every thread issues its own list of run / partial_run requests whose (input ids, output ids) key differs from its neighbours', so consecutive calls from different threads replace the cached execution plan (also in nested subgraph caches); seeded yields/sleeps at the hook sites between plan hand-off and execution. Each result must equal the result of the same request executed alone beforehand (values exactly: every call uses its own single-thread pool). A group that does not finish within the watchdog is inconclusive, not a violation. non-trivial = a plan was created (cache replaced) while at least one other call was in flight; distinct by (case, schedule seed)",
     );
     install_hooks();
     let cases = cases_from(args, "dag,cflow");
@@ -169,7 +169,7 @@ pub fn run_c22(args: &Args) {
                         match (&res, &r.expected) {
                             (Ok(got), Some(exp)) => {
                                 for (g, e) in got.iter().zip(exp) {
-                                    if let Some(diff) = compare(g, e, Tol::Bits) {
+                                    if let Some(diff) = compare(g, e, Tol::Exact) {
                                         problems.push(format!("result differs from the sequential result for output {} (thread {} call {}): {}", g.name, t, i, diff));
                                         break;
                                     }
